@@ -228,12 +228,17 @@ def _is_normal_reduce_expr(expr: IndexLambda) -> bool:
     input_ary = expr.bindings[expr.expr.inner_expr.aggregate.name]
 
     i_out_dim = 0
+    seen_redn_vars: set[str] = set()
 
     for idim, idx in enumerate(expr.expr.inner_expr.index_tuple):
         if not isinstance(idx, p.Variable):
             return False
 
         if idx.name in expr.expr.bounds:
+            if idx.name in seen_redn_vars:
+                # e.g. the trace sum(_r0, x[_r0, _r0]) reduces along a diagonal
+                return False
+            seen_redn_vars.add(idx.name)
             lbound, ubound = expr.expr.bounds[idx.name]
             if (not isinstance(lbound, int) or not isinstance(ubound, int)):
                 raise NotImplementedError("Parametric bound expressions not"
